@@ -318,6 +318,10 @@ class TypeEval:
             return None
         if k == 'seq_rep':
             return self.ty(t[1])
+        if k == 'ext':
+            info = self.vg.loops.get(t[2]) if self.vg is not None else None
+            it_ty = self.ty(info['item']) if info and 'item' in info else None
+            return d.join(self.ty(t[1]), it_ty, t, 'stores together')
         if k == 'seq_lit':
             r = None
             for x in t[1]:
